@@ -463,6 +463,19 @@ def rule_elements(ctx):
                     continue
                 raw = isinstance(it, ast.Name) and it.id in arr_params or \
                     (isinstance(it, ast.Attribute) and it.attr == 'data' and norm(it.value) in arr_params)
+                if not raw and isinstance(it, ast.Call) and isinstance(it.func, ast.Attribute) \
+                        and norm(it.func.value) in arr_params:
+                    # a method of the array class: np.vectorize(<str-mixin enum>) without otypes=[object] lets numpy
+                    # infer a string dtype, so the elements are numpy strings again, not enum members
+                    meth = prog.cls('performance/types.py', 'ThrustModeArray').methods.get(it.func.attr)
+                    if meth is not None:
+                        rets = [r.value for r in walk_no_nested(meth.node) if isinstance(r, ast.Return) and r.value is not None]
+                        for rv in rets:
+                            if isinstance(rv, ast.Call) and isinstance(rv.func, ast.Call) and call_name(rv.func) in ('np.vectorize', 'numpy.vectorize') \
+                                    and rv.func.args and norm(rv.func.args[0]) == 'ThrustMode' \
+                                    and not any(k.arg == 'otypes' for k in rv.func.keywords) \
+                                    and any(b in ('str', 'StrEnum', 'enum.StrEnum') for k in tm.mro() for b in k.base_exprs):
+                                raw = True
                 if not raw:
                     continue
                 scope = x if isinstance(x, ast.For) else getattr(x, '_parent', x)
